@@ -90,6 +90,34 @@ fn mirror_fen(fen: &str) -> String {
     format!("{} {} {} {} {} {}", rows.join("/"), turn, cs, ep, f[4], f[5])
 }
 
+/// (c) every piece kind of either colour on every square it can stand on, with bare kings, its owner to move: the caller
+///     plays every move of these positions (the piece leaves the square, is captured on it when next to the enemy king,
+///     kings step around it): every (kind, square) word of the incremental key is added or removed at least once.
+pub fn piece_square_fens() -> Vec<String> {
+    let mut v = vec![];
+    for (c, white) in [('Q', true), ('R', true), ('B', true), ('N', true), ('P', true), ('K', true), ('q', false), ('r', false), ('b', false), ('n', false), ('p', false), ('k', false)] {
+        for sq in 0..64usize {
+            if (c == 'P' || c == 'p') && (sq / 8 == 0 || sq / 8 == 7) {
+                continue;
+            }
+            let mut g = [None::<char>; 64];
+            g[sq] = Some(c);
+            if c == 'K' || c == 'k' {
+                // the other king far away
+                let other = if sq / 8 < 4 { 60 } else { 4 };
+                g[other] = Some(if c == 'K' { 'k' } else { 'K' });
+            } else {
+                let wk = if sq == 4 { 3 } else { 4 };
+                let bk = if sq == 60 { 59 } else { 60 };
+                g[wk] = Some('K');
+                g[bk] = Some('k');
+            }
+            v.push(format!("{} {} - - 0 1", grid_placement(&g), if white { "w" } else { "b" }));
+        }
+    }
+    v
+}
+
 /// Structured families that random play rarely reaches (white-to-move form; the caller adds the colour-flipped twin):
 /// (a) the castling set-up with one extra enemy piece of every kind on every free square (castling out of, through
 ///     and into every kind of attack, incl. pawn attacks on every path square);
@@ -398,6 +426,23 @@ pub fn walk(args: &[String]) {
                 e.seen.clear();
                 e.block(&mut b);
             }
+        }
+    }
+
+    if arg::<u64>(args, "matrix", 1) == 1 {
+        let mut idx = 0u64;
+        for fen in piece_square_fens() {
+            idx += 1;
+            if idx % of != shard {
+                continue;
+            }
+            let mut b = Board::from_fen(&fen);
+            if b.is_in_check(b.current_turn.opposite()) {
+                continue;
+            }
+            writeln!(e.out, "N {fen}").unwrap();
+            e.seen.clear();
+            dfs(&mut e, &mut b, 1);
         }
     }
 
